@@ -157,6 +157,9 @@ def make_wrap(shadow, glob_variants, inherent=False):
         if glob_variants and t.kind == 'enum' and t.variants:
             extra = f'    #[allow(unused_imports)]\n    use self::{t.name}::*;\n'
         inh = INHERENT.format(name=t.name).replace('panic!(', '::core::panic!(') if inherent and not t.generics else ''
+        for path, al in getattr(t, '_method_aliases', {}).items():
+            src = path
+            extra += f'    #[allow(unused_imports)]\n    use {src} as {al};\n'
         macros = ''
         if shadow:
             for mname in sorted(BARE_MACROS - {'stringify', 'unreachable'}):
@@ -166,9 +169,18 @@ def make_wrap(shadow, glob_variants, inherent=False):
     return wrap
 
 
-def make_xf(field_names, variant_names, rot, absolutize=True, exact=False):
+def make_xf(field_names, variant_names, rot, absolutize=True, exact=False, method_alias=None):
     def xf(t):
         k = 0 if exact else rot
+        aliases = {}     # absolute method path -> single-identifier name it is imported under at the derive site
+
+        def alias(path):
+            if not method_alias or '::' not in path:
+                return path
+            if path not in aliases:
+                aliases[path] = method_alias[len(aliases) % len(method_alias)] if len(aliases) < len(method_alias) else f'{method_alias[0]}{len(aliases)}'
+            return aliases[path]
+        t._method_aliases = aliases
         for vi, v in enumerate(t.variants):
             if variant_names and t.kind == 'enum':
                 v.name = variant_names[(rot + vi) % len(variant_names)]
@@ -188,12 +200,12 @@ def make_xf(field_names, variant_names, rot, absolutize=True, exact=False):
                         if isinstance(p, dict):
                             p = dict(p)
                             if 'method' in p:
-                                p['method'] = abs_path(p['method'])
+                                p['method'] = alias(abs_path(p['method']))
                             if 'expr' in p:
                                 p['expr'] = abs_expr(p['expr'])
                             f.a[tr] = p
                         elif isinstance(p, list):
-                            f.a[tr] = [dict(e, **({'method': abs_path(e['method'])} if e.get('method') else {}), ty=abs_ty(e['ty'])) for e in p]
+                            f.a[tr] = [dict(e, **({'method': alias(abs_path(e['method']))} if e.get('method') else {}), ty=abs_ty(e['ty'])) for e in p]
         if absolutize:
             nt = []
             for tr, p in t.traits:
@@ -332,6 +344,12 @@ pub use self::hostile::Ty;
 FUNCTIONS = ['every expansion of C02..C10 generated at a derive site whose field / variant / parameter names are drawn from the generated code and whose module shadows prelude names']
 
 
+# identifiers the templates use for the parameters / locals of the generated methods, and the templates that use them
+METHOD_IDENTS = ['other', 'state', 'source', 'f', 'builder', 'arg']
+METHOD_IDENT_USERS = {'other': ('PartialEq:', 'Ord:', 'Hash:'), 'state': ('Hash:', 'PartialEq:'), 'source': ('Clone:', 'Hash:'), 'f': ('Debug:', 'DebugNoDefaultKey:', 'Ord:'),
+                      'builder': ('Debug:', 'DebugNoDefaultKey:'), 'arg': ('Debug:', 'DebugNoDefaultKey:', 'Clone:')}
+
+
 def contexts(fields, upper, tier, seed):
     """-> list of (tag, shadow?, glob?, field-name list, variant-name list)"""
     rng = random.Random(seed * 59 + 3)
@@ -343,6 +361,10 @@ def contexts(fields, upper, tier, seed):
            ('names-a', False, False, fa, None),
            ('names-b+shadow', True, False, fb, None),
            ('variants+glob', False, True, None, ['None', 'Some', 'Ok', 'Err', 'Ordering', 'Equal', 'Less', 'Greater', 'Option'] + vn[:6])]
+    # custom methods imported at the derive site under single identifiers that the generated code also uses for its own
+    # parameters and locals (`f`, `other`, `state`, `source`, `builder`, `arg`): `method = other` must still call the user's function
+    for ident in METHOD_IDENTS:
+        ctx.append((f'method-named:{ident}', False, False, None, None, False, False, [ident] + [x for x in METHOD_IDENTS if x != ident]))
     # raw identifiers as field names: bindings derived from them (`_r#type` is not an identifier) must still be well-formed
     ctx.append(('raw-identifiers', False, False, ['r#type', 'r#fn', 'r#match', 'r#loop', 'r#_0'], None, True))
     # names closed under the binding patterns of the generated code: a field x next to fields called like the
@@ -372,15 +394,19 @@ def gen(tier, seed):
             tag, shadow, glob, fns, vns = ctx[:5]
             exact = len(ctx) > 5 and ctx[5]
             inherent = len(ctx) > 6 and ctx[6]
+            malias = ctx[7] if len(ctx) > 7 else None
             if tag == 'raw-identifiers' and name.startswith('Debug:'):
                 continue      # default keys of raw identifiers are not defined by the property
             if name.startswith('DebugNoDefaultKey:') and tag not in ('raw-identifiers', 'shadow'):
                 continue
-            if tier == 'quick' and (ti + ci) % 2 == 1 and tag not in ('shadow', 'inherent-methods', 'raw-identifiers'):
+            if tag.startswith('method-named:'):
+                if not name.startswith(METHOD_IDENT_USERS[tag.split(':')[1]]):
+                    continue
+            elif tier == 'quick' and (ti + ci) % 2 == 1 and tag not in ('shadow', 'inherent-methods', 'raw-identifiers'):
                 continue
             model.TYPE_WRAP = make_wrap(shadow, glob, inherent)
             try:
-                m = mk(f'm{n:04d}', f'{name} @ {tag}', make_xf(fns, vns, ti * 5 + ci, exact=exact))
+                m = mk(f'm{n:04d}', f'{name} @ {tag}', make_xf(fns, vns, ti * 5 + ci, exact=exact, method_alias=malias))
             finally:
                 model.TYPE_WRAP = None
             if m is None:
@@ -409,14 +435,38 @@ def gen(tier, seed):
                     n += 1
     finally:
         p_c04.VN[:] = saved
+    # unions (byte-wise Debug / PartialEq / Hash, `*self` Clone, Default): the same hostile derive sites
+    from . import p_c20
+
+    class _U:
+        kind, name, generics, variants = 'union', 'Un', '', []
+    for ui, (tys, nm, shadow, inherent) in enumerate([(['u8', 'u16'], None, True, False), (['[u8; 3]', 'u16'], 'Rn', False, True), (['u32', 'u8'], False, True, True)]):
+        if tier == 'quick' and ui == 2:
+            continue
+        w = make_wrap(shadow, False, inherent)
+        def dw(decl, w=w):
+            const = '\n'.join(l for l in decl.splitlines() if l.startswith('const _'))
+            body = '\n'.join(l for l in decl.splitlines() if not l.startswith('const _'))
+            return w(body + '\n', _U) + const + '\n'
+        m = p_c20.emit(f'm{n:04d}', tys, nm, dbg_bytes=[p_c20.PATS[2]], default_idx=ui % len(tys), with_default_expr=False, pretty_max=4, decl_wrap=dw)
+        m.cfgid = 'Union:' + m.cfgid + f' @ shadow={int(shadow)} inherent={int(inherent)}'
+        mods.append(m)
+        n += 1
+    n = len(mods)
     mods += generic_modules(n, upper)
     for m in mods:
         m.functions = FUNCTIONS
     return mods, dict(bare_macros_in_templates=sorted(BARE_MACROS), harvested_identifiers=len(idents), field_name_pool=fields[:60], type_name_pool=upper[:40], format_ident_patterns=patterns)
 
 
+# (template, identifier) pairs in which the identifier is a parameter / local of that trait's generated method
+METHOD_LOCALS = {('PartialEq', 'other'), ('Ord', 'other'), ('Hash', 'state'), ('Clone', 'source'), ('Debug', 'f'), ('Debug', 'builder')}
+
+
 def classes_for(name, tag, shadow, glob):
     ks = []
+    if tag.startswith('method-named:') and (name.split(':')[0], tag.split(':')[1]) in METHOD_LOCALS:
+        ks.append('c19:method-path-named-like-generated-local')
     if name.startswith('Ord:') and '/pord' in name and (shadow or glob):
         ks.append('c19:partial-ord-unqualified-some-none')
     return ks
@@ -426,11 +476,14 @@ RULE = ('one config = a request from the C02..C10 grammars re-instantiated in a 
         'named fields renamed to identifiers harvested on this run from the quote! templates and format_ident! patterns of /repo/src; enum variants named None/Some/Ok/Equal/... and glob-imported at the derive site; combinations}, '
         'plus generic types whose type / const / lifetime parameters are named like generated identifiers (H, V, M, ...). Behaviour must equal the oracle for all values in each context; a context that does not compile is reported as a compiler verdict. '
         'Non-trivial = all harnesses passed with witnesses SATISFIED.')
-BOUNDS = dict(outside=['#![no_std] at crate level (only the `std` module name is shadowed at the derive site; an absolute ::std:: path would not be seen)', 'identifier choices beyond the harvested pool', 'macro-hygiene of user macros'])
+BOUNDS = dict(no_std='emulated: `extern crate educe as std;` at the crate root makes every `::std::..` / `std::..` path of generated code unresolvable (the alloc crate is not linked either way)', outside=['a real #![no_std] build of the harness crate', 'identifier choices beyond the harvested pool', 'macro-hygiene of user macros'])
 ASSUME = ['as for C02..C10; oracle and harness code live outside the hostile module and refer to the type by path']
 
 
 def main(tier, seed, keep=False):
     from .runner import run_e1
     mods, extra = gen(tier, seed)
-    return run_e1('C19', tier, seed, mods, RULE, BOUNDS, ASSUME, need_stubbing=True, keep=keep, harness_timeout=300 if tier == 'quick' else 900, extra=extra)
+    # the crate root renames `std`: an absolute `::std::..` path in generated code no longer resolves (what `#![no_std]` would do),
+    # while the prelude and the harness code (which say `stdx`) are unaffected
+    return run_e1('C19', tier, seed, mods, RULE, BOUNDS, ASSUME, need_stubbing=True, keep=keep, harness_timeout=300 if tier == 'quick' else 900, extra=extra,
+                  lib_attrs='extern crate educe as std;\n')
